@@ -446,6 +446,11 @@ class Dispatcher(BaseDispatcher, Generic[ContextType]):
         except (pjrpc.exceptions.DeserializationError, pjrpc.exceptions.IdentityError) as e:
             response = self._response_class(id=None, error=pjrpc.exceptions.InvalidRequestError(data=str(e)))
 
+        except ValueError as e:
+            # the loader may reject a text without raising JSONDecodeError
+            # (e.g. an integer literal beyond the interpreter's digit limit)
+            response = self._response_class(id=None, error=pjrpc.exceptions.ParseError(data=str(e)))
+
         else:
             if isinstance(request, BatchRequest):
                 if self._max_batch_size and len(request) > self._max_batch_size:
@@ -588,6 +593,11 @@ class AsyncDispatcher(BaseDispatcher, Generic[ContextType]):
 
         except (pjrpc.exceptions.DeserializationError, pjrpc.exceptions.IdentityError) as e:
             response = self._response_class(id=None, error=pjrpc.exceptions.InvalidRequestError(data=str(e)))
+
+        except ValueError as e:
+            # the loader may reject a text without raising JSONDecodeError
+            # (e.g. an integer literal beyond the interpreter's digit limit)
+            response = self._response_class(id=None, error=pjrpc.exceptions.ParseError(data=str(e)))
 
         else:
             if isinstance(request, BatchRequest):
